@@ -613,11 +613,15 @@ def _parse_simple_format(fmt):
     return pieces, nconv
 
 
-def _has_symbolic(x):
+def _has_symbolic(x, depth=0):
     if isinstance(x, CrossHairValue):
         return True
-    if isinstance(x, tuple):
-        return any(_has_symbolic(e) for e in x)
+    if depth > 6:
+        return False
+    if isinstance(x, (tuple, list)):
+        return any(_has_symbolic(e, depth + 1) for e in x)
+    if isinstance(x, dict):
+        return any(_has_symbolic(e, depth + 1) for e in x.values())
     return False
 
 
